@@ -164,6 +164,45 @@ def check_history(cfg, hist):
         tr.close()
 
 
+def directed(cfg):
+    """Replace-then-touch chains through the container interface: build . B . replace . B^n . touch . R? . touch2."""
+    import itertools
+
+    G, GD, E, H, GF = cfg["paths"]
+    builds = [
+        [["mkds", E], ["sa", E, "k"]],
+        [["mkds", E], ["attach", E, "vt.bb"]],
+        [["mkgrp", G], ["mkds", GD], ["sa", G, "k"]],
+        [["mkgrp", G], ["mkds", GD], ["attach", GD, "vt.aa"], ["attach", G, "vt.cc"]],
+        [["sa", "/", "k"], ["attach", "/", "vt.aa"]],
+    ]
+    repl = {
+        E: [[["del", E], ["mkds", E]], [["del", E]], [["da", E, "k"]], [["detach", E, "vt.bb"]], [["move", E, H], ["mkds", E]]],
+        G: [[["del", G], ["mkgrp", G]], [["del", G], ["mkds", G]], [["del", GD], ["mkds", GD]], [["move", G, H], ["mkgrp", G]], [["detach", G, "vt.cc"]]],
+        "/": [[["da", "/", "k"]], [["detach", "/", "vt.aa"]], [["sa", "/", "k"], ["da", "/", "k"]]],
+    }
+    touch = {
+        E: [[["sa", E, "k"]], [["attach", E, "vt.bb"]], [["attach", E, "vt.cc"]], [["sa", E, "k"], ["da", E, "k"]]],
+        G: [[["sa", G, "k"]], [["mkds", GF]], [["attach", G, "vt.cc"]], [["mkds", GD]], [["attach", GD, "vt.aa"]], [["sa", GD, "k"]]],
+        "/": [[["sa", "/", "k"]], [["attach", "/", "vt.aa"]], [["attach", "/", "vt.bb"]]],
+    }
+    out = []
+    for bi, b in enumerate(builds):
+        node = E if bi < 2 else (G if bi < 4 else "/")
+        for rp in repl[node]:
+            for n in (1, 2):
+                for t in touch[node]:
+                    for tail in ([], [["R"]], [["B"]] + touch[node][0]):
+                        out.append(b + [["B"]] + rp + [["B"]] * n + t + tail)
+    return out
+
+
+def check_directed(task):
+    cfg_name, hist = task
+    cfg = dict(contexp.CFGS[cfg_name])
+    return check_history(cfg, hist)
+
+
 def bfs(pool, cfg, depth, start, budget_s, t0):
     seen = {pool.map("init_key", [("c09", start)])[0]}
     frontier = [start]
@@ -205,7 +244,7 @@ def run(tier, seed):
     budget = 170 if q else 2400
     fam, violations, samples = {}, [], []
     with parallel.make_pool("mc.props.c09", {"cfgs": {"c09": cfg}, "envs": ["old"]}) as pool:
-        r = bfs(pool, cfg, 3 if q else 4, [], budget, t0)
+        r = bfs(pool, cfg, 2 if q else 4, [], budget, t0)
         violations += r.pop("violations")
         samples += [{"history": h} for h in r.pop("samples")]
         fam["empty"] = r
@@ -214,6 +253,17 @@ def run(tier, seed):
             violations += r.pop("violations")
             samples += [{"history": h} for h in r.pop("samples")]
             fam["from-" + nm] = r
+        dh = directed(cfg)
+        dres = pool.map("check_directed", [("c09", h) for h in dh], chunk=2, item_deadline=600)
+        dsteps = 0
+        for h, r in zip(dh, dres):
+            dsteps += len(h)
+            if r == parallel.HANG:
+                violations.append(_viol(cfg, h, None, "hang", "worker hung", DRIVERS))
+            elif r is not None:
+                violations.append(r)
+        fam["directed"] = {"states": len(dh), "transitions": dsteps, "capped": False, "histories": len(dh)}
+        samples.append({"history": dh[len(dh) // 2]})
     cov = {
         "states": sum(f["states"] for f in fam.values()),
         "transitions": sum(f["transitions"] for f in fam.values()),
